@@ -12,7 +12,7 @@ import numpy as np
 from .core import VERIF, OUT
 
 LEAN = os.path.join(VERIF, 'lean')
-DRIVER = os.path.join(LEAN, '.lake', 'build', 'bin', 'driver')
+BIN = os.path.join(LEAN, '.lake', 'build', 'bin')
 ALLOWED_AXIOMS = {'propext', 'Classical.choice', 'Quot.sound'}
 FORBIDDEN = re.compile(r'\b(sorry|admit|native_decide|bv_decide|implemented_by|unsafe)\b|^axiom\s|maxHeartbeats\s+0\b', re.M)
 
@@ -67,7 +67,7 @@ def _imports_closure(module, seen=None):
     return seen
 
 
-def audit(prop, theorems, tier='quick', extra_modules=()):
+def audit(prop, theorems, tier='quick', extra_modules=(), drivers=('driver',)):
     """Build Props/<prop>, check that every theorem in `theorems` exists with allowed axioms.
 
     Returns dict(ok, obligations, discharged, theorems, problems, checker_cmd)."""
@@ -75,7 +75,7 @@ def audit(prop, theorems, tier='quick', extra_modules=()):
     module = f'PbBss.Props.{prop}'
     res = {'ok': False, 'obligations': len(theorems), 'discharged': 0, 'theorems': {}, 'problems': [],
            'checker_cmd': f'cd lean && lake build {module} && lake env lean Audit/{prop}.lean  (#print axioms of each theorem)'}
-    ok, log = lake_build([module] + list(extra_modules) + ['driver'])
+    ok, log = lake_build([module] + list(extra_modules) + list(drivers))
     if not ok:
         res['problems'].append({'build': log[-1500:]})
         return res
@@ -171,11 +171,11 @@ def parse_ints(line):
     return np.array([int(x) for x in line.split()], dtype=np.int64)
 
 
-def run_driver(lines, timeout=600):
-    """Send operation lines to the Lean model driver; returns one output line per input line."""
+def run_driver(lines, exe='driver', timeout=600):
+    """Send operation lines to the Lean model driver `exe`; returns one output line per input line."""
     if not lines:
         return []
-    r = subprocess.run([DRIVER], input='\n'.join(lines) + '\n', capture_output=True, text=True, timeout=timeout)
+    r = subprocess.run([os.path.join(BIN, exe)], input='\n'.join(lines) + '\n', capture_output=True, text=True, timeout=timeout)
     out = r.stdout.split('\n')
     if out and out[-1] == '':
         out.pop()
